@@ -173,8 +173,12 @@ impl SingleSubLowerer<'_, '_> {
         };
 
         // EoSD args must be const
-        let lowered_int = self.classify_expr(&int)?.expect_simple().lowered.clone();
-        let lowered_float = self.classify_expr(&float)?.expect_simple().lowered.clone();
+        let lower_simple_arg = |arg: &Sp<ast::Expr>| match self.classify_expr(arg)? {
+            ExprClass::Simple(simple) => Ok(simple.lowered.clone()),
+            ExprClass::NeedsElaboration(_) => Err(self.unsupported(arg.span, "complex expression in EoSD sub call argument")),
+        };
+        let lowered_int = lower_simple_arg(&int)?;
+        let lowered_float = lower_simple_arg(&float)?;
         let lowered_sub_id = sp!(call.name.span => LowerArg::Raw(sub.index.into()));
 
         self.lower_intrinsic(
@@ -1041,15 +1045,6 @@ struct SimpleExpr {
     ty: ScalarType,
 }
 
-impl ExprClass<'_> {
-    #[track_caller]
-    fn expect_simple(&self) -> &SimpleExpr {
-        match self {
-            ExprClass::Simple(e) => e,
-            _ => panic!("not simple: {:?}", self),
-        }
-    }
-}
 
 #[derive(Debug)]
 struct TemporaryExpr<'a> {
